@@ -1,1 +1,5 @@
 Check (C04_build_succeeds_iff_video_configured : forall b script, (exists m, build b script = inl m) <-> b_video b <> None).
+Check (C04_step_obeys_contract : forall b m o m' r, Rep b m -> op_ok o -> step m o = (m', r) -> (forall p, r <> RPanic p) ->
+  call_ok b (abs_csum m) o (outcome_of r) = true /\ abs_csum m' = csum_next b (abs_csum m) o (outcome_of r) /\ Rep b m').
+Check (C04_model_obeys_contract : forall b script m0 ops, build b script = inl m0 -> Forall op_ok ops ->
+  Forall (fun r => forall p, r <> RPanic p) (snd (run m0 ops)) -> check_C04 b ops (map outcome_of (snd (run m0 ops))) = true).
